@@ -392,15 +392,17 @@ func (v *Vue) callFunc(ctx *VueContext, fn any, args ...any) (any, error) {
 		// Try to convert the argument to the expected type
 		if argVal.Type().AssignableTo(argType) {
 			in[i] = argVal
-		} else if argVal.Type().ConvertibleTo(argType) {
-			in[i] = argVal.Convert(argType)
-		} else {
-			// Try to handle common conversions
-			converted, ok := convertValue(argVal, argType)
-			if !ok {
-				return nil, fmt.Errorf("cannot convert argument %d from %v to %v", i, argVal.Type(), argType)
+		} else if converted, ok := convertValue(argVal, argType); ok {
+			// Textual conversions first: Go's own int -> string conversion yields the
+			// rune with that code point, not the decimal text.
+			if converted.Type() != argType && converted.Type().ConvertibleTo(argType) {
+				converted = converted.Convert(argType) // named string / bool types
 			}
 			in[i] = converted
+		} else if argVal.Type().ConvertibleTo(argType) && !(argType.Kind() == reflect.String && isIntegerKind(argVal.Kind())) {
+			in[i] = argVal.Convert(argType)
+		} else {
+			return nil, fmt.Errorf("cannot convert argument %d from %v to %v", i, argVal.Type(), argType)
 		}
 	}
 
@@ -427,6 +429,11 @@ func (v *Vue) callFunc(ctx *VueContext, fn any, args ...any) (any, error) {
 	default:
 		return nil, fmt.Errorf("function returns too many values")
 	}
+}
+
+// isIntegerKind reports whether k is a signed or unsigned integer kind.
+func isIntegerKind(k reflect.Kind) bool {
+	return k >= reflect.Int && k <= reflect.Uintptr
 }
 
 // convertValue attempts common type conversions
